@@ -286,12 +286,30 @@ mod compat {
     use codespan_reporting::files::SimpleFile;
 
     pub fn position_to_offset(file: &SimpleFile<&str, &str>, pos: &lsp_types::Position) -> usize {
-        codespan_lsp::position_to_byte_index(
+        use codespan_reporting::files::Files;
+        let source: &str = file.source();
+        // codespan-lsp itself panics for a line past the end of the document
+        let Ok(range) = file.line_range((), pos.line as usize) else {
+            return source.len();
+        };
+        if let Ok(offset) = codespan_lsp::position_to_byte_index(
             file,
             (),
             &lsp_types_old::Position::new(pos.line, pos.character),
-        )
-        .unwrap()
+        ) {
+            return offset;
+        }
+        // The position is past the end of its line or inside a surrogate pair.
+        // The protocol says such positions default back to the end of the line.
+        let line = source[range.clone()].trim_end_matches(['\r', '\n']);
+        let mut utf16_offset = 0;
+        for (i, c) in line.char_indices() {
+            if utf16_offset >= pos.character {
+                return range.start + i;
+            }
+            utf16_offset += c.len_utf16() as u32;
+        }
+        range.start + line.len()
     }
 
     pub fn span_to_range(file: &SimpleFile<&str, &str>, span: &Span) -> lsp_types::Range {
